@@ -406,6 +406,16 @@ where
             None
         };
         preprocessor_and_arch_args.extend(profile_output_path.clone());
+        // Relative paths in the arguments (`-I.`) are resolved against the working
+        // directory, and the recorded include files are absolute paths: unless
+        // `hash_working_directory` is switched off, a request from another directory
+        // must not find this one's preprocessor cache entry.
+        if storage
+            .preprocessor_cache_mode_config()
+            .hash_working_directory
+        {
+            preprocessor_and_arch_args.push(cwd.clone().into_os_string());
+        }
 
         let absolute_input_path: Cow<'_, _> = if parsed_args.input.is_absolute() {
             Cow::Borrowed(&parsed_args.input)
